@@ -9,7 +9,7 @@ from vfacts import strip, walk, method_name, must_pass_through, known_facts, is_
 from .prov import var_table, assignments, origins, local_sources
 
 RULE = 'DISPATCH'
-FLOOR = 30
+FLOOR = 24
 ANCHORS = ['ExplicitTreeAutCore::CheckInclusion', 'BDDBUTreeAutCore::CheckInclusion', 'BDDTDTreeAutCore::CheckInclusion',
            'ExplicitFiniteAutCore::CheckInclusion', 'AutBase::SanitizeAutsForInclusion']
 ASSUMPTIONS = ['the entity table (flags -> algorithm) is the registered reading of DESIGN.md section 3, DISPATCH']
